@@ -18,8 +18,8 @@ Inductive op :=
 | OTruncate (n : Z)
 | OKeepRows (keep : list bool)
 | OClear
-| OSetColumns (c : cols)
-| OAppendColumns (c : cols)
+| OSetColumns (c : pcols)
+| OAppendColumns (c : pcols)
 | OPackset (j : nat) (vals : list (list Z))
 | OSetAttrFixed (j : nat) (vals : list Z)
 | OSetAttrData (j : nat) (vals : list Z)
@@ -69,8 +69,8 @@ Definition exec (d : tdesc) (t : tbl) (o : op) : tbl * bool * J :=
                       | (t', _) => (t', false, JN)
                       end
   | OClear => of_step (lift t (clear t))
-  | OSetColumns c => of_step (set_columns d t c)
-  | OAppendColumns c => of_step (append_columns d t c)
+  | OSetColumns c => match fill_cols d c with Some cs => of_step (set_columns d t cs) | None => (t, false, JN) end
+  | OAppendColumns c => match fill_cols d c with Some cs => of_step (append_columns d t cs) | None => (t, false, JN) end
   | OPackset j vals => of_step (py_packset d t j vals)
   | OSetAttrFixed j vals => of_step (py_setattr_fixed d t j vals)
   | OSetAttrData j vals => of_step (py_setattr_data d t j vals)
